@@ -115,6 +115,8 @@ type G struct {
 	atSwitch bool // a scheduling decision has just been taken at the current instruction
 	selPick  int  // select case picked by the scheduler for the retried select (-1 none)
 	syncDepth int
+	parked    bool // slow-yield policy: waiting at the end of a plugin call until nothing else can run
+	parkSeq   int
 }
 
 type Violation struct {
@@ -128,6 +130,10 @@ type Violation struct {
 	Trace     []string          `json:"trace"`
 	Harness   string            `json:"harness"`
 	Choices   map[string]int64  `json:"choices"`
+	// Alternates: further witnesses of the same violation reached along other paths (other schedules, other inputs).
+	Alternates []*Violation `json:"-"`
+	// Races: see Interp.races; witnesses with fewer races are replayed first.
+	Races int `json:"races"`
 }
 
 type Config struct {
@@ -137,6 +143,7 @@ type Config struct {
 	Preemptions int
 	SwitchOn    map[string]bool // chan lock atomic yield go
 	Ticks       int             // ticks offered by each Ticker
+	SlowYield   []string        // switch classes (prefixes) at which a goroutine parks by default: "plugin calls are slow"
 	Bounds      map[string]int  // echoed Bound() values
 	Concrete    map[string]int64 // concrete mode (selftest/validation): values for nondet vars
 	ConcreteChoices map[string]int64
@@ -164,6 +171,8 @@ type Interp struct {
 	cur     *G
 	steps   int
 	preempt int
+	parkCtr int
+	races   int // scheduling decisions taken while another goroutine, just woken from a blocking wait, was free to run (the native replay controller cannot order those)
 
 	vars     []*smt.Term
 	varSeq   map[string]int
@@ -676,6 +685,7 @@ func (it *Interp) recordViolation(v *Violation, model map[string]uint64) {
 		}
 	}
 	v.Decisions = append([]int64{}, it.taken...)
+	v.Races = it.races
 	if v.Facts == nil {
 		v.Facts = map[string]string{}
 	}
